@@ -57,6 +57,16 @@ impl PerClientStats {
         }
     }
 
+    /// Recorder with a caller-chosen client limit (verification builds only)
+    #[cfg(roughenough_verif)]
+    pub fn with_limit_verif(limit: usize) -> Self {
+        PerClientStats {
+            clients: AHashMap::with_capacity(limit),
+            num_overflows: 0,
+            max_clients: limit,
+        }
+    }
+
     #[inline]
     fn too_many_entries(&mut self) -> bool {
         let too_big = self.clients.len() >= self.max_clients;
